@@ -425,12 +425,12 @@ class ZERR(Command):
             self.Z = p[0]
         if len(p) > 6:
             self.esd_list = p[1:]
-            self.esd_a = p[0]
-            self.esd_b = p[1]
-            self.esd_c = p[2]
-            self.esd_al = p[3]
-            self.esd_be = p[4]
-            self.esd_ga = p[5]
+            self.esd_a = p[1]
+            self.esd_b = p[2]
+            self.esd_c = p[3]
+            self.esd_al = p[4]
+            self.esd_be = p[5]
+            self.esd_ga = p[6]
 
 
 class AFIX(Command):
